@@ -256,9 +256,10 @@ fn c06_kernel_s2n() {
 /// Safe-to-skip kernel: one vote arrives while no block is anywhere near safe-to-notar
 /// (both blocks below 20 % before and after, so the pending set is concretely empty and the
 /// safe-to-notar re-evaluation loops do not run).  trigger: 1 = a skip vote by validator 0
-/// (own = 2), 4 = the node's own skip vote, 2 = the node's own notar(A) vote (own = 0).
-fn s2s_body(trigger: u8) {
-    let own = if trigger == 1 { 2 } else { 0 };
+/// (own = 2), 6 = a skip-fallback vote by validator 0 (own = 2; it must never signal),
+/// 4 = the node's own skip vote, 2 = the node's own notar(A) vote (own = 0).
+fn s2s_body(trigger: u8, cov: fn(u8, bool)) {
+    let own = if trigger == 1 || trigger == 6 { 2 } else { 0 };
     let stakes: [u64; N] = [vs::any_u16() as u64, vs::any_u16() as u64, vs::any_u16() as u64];
     let mut held: [Held; N] = [NOTHING, any_ns(), any_ns()];
     let parent: [u8; 3] = [0, 0, 0];
@@ -276,9 +277,11 @@ fn s2s_body(trigger: u8) {
         k += 1;
     }
     st.sent_safe_to_skip = c0.s2s;
-    let (kind, hash) = if trigger == 2 { (0u8, 1u8) } else { (2u8, 1u8) };
+    let (kind, hash) = if trigger == 2 { (0u8, 1u8) } else if trigger == 6 { (3u8, 1u8) } else { (2u8, 1u8) };
     if kind == 0 {
         held[0].notar = 1;
+    } else if kind == 3 {
+        held[0].sf = true;
     } else {
         held[0].skip = true;
     }
@@ -299,26 +302,104 @@ fn s2s_body(trigger: u8) {
     }
     vcheck!(n_s2s == (c1.s2s && !c0.s2s) as u8, "safe-to-skip not signalled exactly when its condition became true (missing, early, or repeated)");
     vcheck!(st.sent_safe_to_skip == c1.s2s, "safe-to-skip bookkeeping differs from the condition");
-    vcover!(n_s2s == 1, "safe-to-skip is signalled");
-    vcover!(n_s2s == 0, "nothing is signalled");
+    cov(n_s2s, c0.s2s);
     std::mem::forget(st);
     std::mem::forget(fx);
     std::mem::forget(events);
 }
+fn cov_signal(n_s2s: u8, _before: bool) {
+    vcover!(n_s2s == 1, "safe-to-skip is signalled");
+    vcover!(n_s2s == 0, "nothing is signalled");
+}
+/// a skip-fallback vote never makes the condition true
+fn cov_never(n_s2s: u8, before: bool) {
+    vcover!(n_s2s == 0 && before, "nothing is signalled, the condition held before");
+    vcover!(n_s2s == 0 && !before, "nothing is signalled, the condition does not hold");
+}
 macro_rules! s2s {
     ($name:ident, $t:literal) => {
+        s2s!($name, $t, cov_signal);
+    };
+    ($name:ident, $t:literal, $cov:ident) => {
         #[cfg_attr(kani, kani::proof)]
         #[cfg_attr(kani, kani::stub(crate::crypto::aggsig::SecretKey::sign, crate::consensus::kani_fix::sign_stub))]
         #[cfg_attr(kani, kani::unwind(6))]
         #[cfg_attr(verif_replay, test)]
         fn $name() {
-            s2s_body($t)
+            s2s_body($t, $cov)
         }
     };
 }
 s2s!(c06_kernel_s2s_skipvote, 1);
 s2s!(c06_kernel_s2s_ownskip, 4);
 s2s!(c06_kernel_s2s_ownnotar, 2);
+s2s!(c06_kernel_s2s_sfvote, 6, cov_never);
+
+/// Safe-to-skip, light version: who holds what is CONCRETE (the node itself, validator 2, voted
+/// notar(A); validator 1 voted notar(B); validator 0 votes now), stakes are symbolic, both
+/// blocks already signalled safe-to-notar and every certificate present, so that only the
+/// safe-to-skip evaluation of the arriving vote remains.  kind: 2 = skip vote, 3 = skip-fallback
+/// vote (its stake is not "skip" stake: it must never signal).
+fn s2s_light_body(kind: u8, cov: fn(u8, bool)) {
+    let own = 2usize;
+    let stakes: [u64; N] = [vs::any_u16() as u64, vs::any_u16() as u64, vs::any_u16() as u64];
+    let mut held: [Held; N] = [NOTHING, NOTHING, NOTHING];
+    held[1].notar = 2;
+    held[2].notar = 1;
+    let parent: [u8; 3] = [0, 0, 0];
+    let t0 = Totals::of(&held, &stakes);
+    vs::assume(t0.total > 0);
+    let c0 = conds(&held, &stakes, own, &parent);
+    let fx = fixture(&stakes, own);
+    let mut st = SlotState::new(Slot::new(SLOT), fx.epoch.clone());
+    install(&mut st, &fx, own, &held[own]);
+    install_totals(&mut st, &t0);
+    let vals = fx.epoch.epoch_info().validators();
+    let mut k = 0u8;
+    while k < 5 {
+        st.add_cert(crate::consensus::cert::kani_certstub::opaque(k, Slot::new(SLOT), block_hash(1), vals, &fx.sks[1]));
+        k += 1;
+    }
+    st.sent_safe_to_notar.insert(block_hash(1));
+    st.sent_safe_to_notar.insert(block_hash(2));
+    st.sent_safe_to_skip = c0.s2s;
+    if kind == 3 {
+        held[0].sf = true;
+    } else {
+        held[0].skip = true;
+    }
+    let (_c, events, _r) = st.add_vote(mk_vote(&fx, 0, kind, 1), Stake::new(stakes[0]));
+    let c1 = conds(&held, &stakes, own, &parent);
+    let mut n_s2s = 0u8;
+    for e in events.iter() {
+        match e {
+            PoolEvent::SafeToSkip(s) => {
+                vcheck!(*s == Slot::new(SLOT), "safe-to-skip for the wrong slot");
+                n_s2s += 1;
+            }
+            _ => vcheck!(false, "unexpected event"),
+        }
+    }
+    vcheck!(n_s2s == (c1.s2s && !c0.s2s) as u8, "safe-to-skip not signalled exactly when its condition became true (missing, early, or repeated)");
+    vcheck!(st.sent_safe_to_skip == c1.s2s, "safe-to-skip bookkeeping differs from the condition");
+    cov(n_s2s, c0.s2s);
+    std::mem::forget(st);
+    std::mem::forget(fx);
+    std::mem::forget(events);
+}
+macro_rules! s2sl {
+    ($name:ident, $k:literal, $cov:ident) => {
+        #[cfg_attr(kani, kani::proof)]
+        #[cfg_attr(kani, kani::stub(crate::crypto::aggsig::SecretKey::sign, crate::consensus::kani_fix::sign_stub))]
+        #[cfg_attr(kani, kani::unwind(6))]
+        #[cfg_attr(verif_replay, test)]
+        fn $name() {
+            s2s_light_body($k, $cov)
+        }
+    };
+}
+s2sl!(c06_s2s_light_skip, 2, cov_signal);
+s2sl!(c06_s2s_light_sfallback, 3, cov_never);
 
 macro_rules! h {
     ($name:ident, $t:literal) => {
